@@ -27,7 +27,7 @@ type Case struct {
 	Mode string  `json:"mode"` // resample | interval
 	N    int     `json:"n"`
 	D    gen.F   `json:"d"`
-	DF   string  `json:"df"` // planar | geo | haversine
+	DF   string  `json:"df"` // planar | geo | haversine | planar-reentrant
 }
 
 func (c Case) line() orb.LineString {
@@ -121,6 +121,18 @@ func distToLine(p orb.Point, ls orb.LineString) float64 {
 func checkCase(c Case) error {
 	orig := c.line()
 	df := distFunc(c.DF)
+	callDF := df
+	if c.DF == "planar-reentrant" {
+		// the distance callback itself resamples another line: a legal caller (a metric defined through
+		// a resampled path) that exposes scratch state kept between calls inside the package
+		callDF = func(a, b orb.Point) float64 {
+			tmp := orb.LineString{{7, 7}, {8, 7}, {8, 11}, {13, 11}}
+			if r := resample.Resample(tmp, planar.Distance, 3); len(r) != 3 || r[1] != (orb.Point{8, 11}) {
+				panic(fmt.Sprintf("nested Resample returned %v", r))
+			}
+			return planar.Distance(a, b)
+		}
+	}
 	in := orig.Clone()
 	if orig == nil {
 		in = nil
@@ -131,14 +143,14 @@ func checkCase(c Case) error {
 
 	// arguments that return nothing
 	if c.Mode == "resample" && c.N <= 0 {
-		out = resample.Resample(in, df, c.N)
+		out = resample.Resample(in, callDF, c.N)
 		if len(out) != 0 {
 			return fmt.Errorf("Resample with N=%d returned %d points, want nothing", c.N, len(out))
 		}
 		return nil
 	}
 	if c.Mode == "interval" && d <= 0 {
-		out = resample.ToInterval(in, df, d)
+		out = resample.ToInterval(in, callDF, d)
 		if len(out) != 0 {
 			return fmt.Errorf("ToInterval with d=%v returned %d points, want nothing", d, len(out))
 		}
@@ -146,9 +158,9 @@ func checkCase(c Case) error {
 	}
 
 	if c.Mode == "resample" {
-		out = resample.Resample(in, df, c.N)
+		out = resample.Resample(in, callDF, c.N)
 	} else {
-		out = resample.ToInterval(in, df, d)
+		out = resample.ToInterval(in, callDF, d)
 	}
 
 	// fewer than two vertices: returned as it is
@@ -310,8 +322,17 @@ func TestPropResample(t *testing.T) {
 	stats.Assume("distance functions are planar.Distance, geo.Distance, geo.DistanceHaversine; geo functions get lon/lat inputs with |lat| <= 80")
 	stats.Assume("ToInterval distances are >= total/3000 so that the output stays small")
 	stats.Check(t, 1000000, 20000000, func(rt *rapid.T) {
+		c := drawCase(rt)
+		classify(c, c.line())
+		stats.Try(rt, "TestPropResample", c, func() error { return checkCase(c) })
+	})
+}
+
+// drawCase draws one case of TestPropResample.
+func drawCase(rt *rapid.T) Case {
+	{
 		c := Case{}
-		c.DF = rapid.SampledFrom([]string{"planar", "planar", "geo", "haversine"}).Draw(rt, "df")
+		c.DF = rapid.SampledFrom([]string{"planar", "planar", "geo", "haversine", "planar-reentrant"}).Draw(rt, "df")
 		ls, isNil := genLine(rt, c.DF != "planar")
 		c.Line, c.Nil = gen.Pts(ls), isNil
 		c.Mode = rapid.SampledFrom([]string{"resample", "resample", "interval"}).Draw(rt, "mode")
@@ -340,8 +361,35 @@ func TestPropResample(t *testing.T) {
 				c.D = gen.F(math.Max(float64(c.D), 1e-3))
 			}
 		}
-		classify(c, ls)
-		stats.Try(rt, "TestPropResample", c, func() error { return checkCase(c) })
+		return c
+	}
+}
+
+// TestPropConcurrent evaluates several independent cases at the same time on separate goroutines.
+// Resample/ToInterval are functions of their arguments only, so every case must still agree with the
+// model: a disagreement means concurrent callers share state inside the library (scratch tables kept in
+// package variables, pooled buffers).
+func TestPropConcurrent(t *testing.T) {
+	stats.Check(t, 4000, 100000, func(rt *rapid.T) {
+		n := rapid.IntRange(2, 8).Draw(rt, "goroutines")
+		cs := make([]Case, n)
+		for i := range cs {
+			cs[i] = drawCase(rt)
+		}
+		stats.Class(fmt.Sprintf("concurrent:%d goroutines", n))
+		nt := 0
+		for _, c := range cs {
+			if len(c.Line) >= 3 && !allEqual(c.line()) {
+				nt++
+			}
+		}
+		if nt >= 2 {
+			stats.NonTrivial("conc:" + gen.JSON(cs))
+			if stats.WantSample("concurrent") {
+				stats.Sample("concurrent", cs)
+			}
+		}
+		stats.TryParallel(rt, "TestPropConcurrent", cs, n, 25, func(i int) error { return checkCase(cs[i]) })
 	})
 }
 
@@ -442,6 +490,18 @@ func TestReplay(t *testing.T) {
 	_, raw, ok := stats.Replaying()
 	if !ok {
 		t.Skip("no replay file")
+	}
+	if name, _, _ := stats.Replaying(); name == "TestPropConcurrent" {
+		var cs []Case
+		if err := json.Unmarshal(raw, &cs); err != nil {
+			t.Fatal(err)
+		}
+		for k := 0; k < 20; k++ {
+			if err := stats.ParallelErr(len(cs), 200, func(i int) error { return checkCase(cs[i]) }); err != nil {
+				t.Fatalf("replayed concurrent group still fails: %v", err)
+			}
+		}
+		return
 	}
 	var c Case
 	if err := json.Unmarshal(raw, &c); err != nil {
